@@ -738,8 +738,9 @@ impl Kernel {
 
     pub fn sys_nanosleep(&mut self, ns: u64) -> Result<(), i32> {
         let eff = self.enter(CallKind::Nanosleep, b"");
-        if let Some(Effect::Errno(e)) = eff {
-            return Err(e);
+        // the only way a relative sleep with valid arguments fails is EINTR (std asserts that)
+        if let Some(Effect::Errno(EINTR)) = eff {
+            return Err(EINTR);
         }
         self.clock_ns = self.clock_ns.saturating_add(ns);
         if self.clock_ns > self.sched.max_ns {
